@@ -564,10 +564,18 @@ for M in mods:
                                            ("<node>" if has_default and dataclasses.is_dataclass(f.default) else None)),
                                "type": str(f.type)})
             class_nodes = [k for k, v in vars(c).items() if dataclasses.is_dataclass(v) and not isinstance(v, type)]
+            # special methods written by hand in the class body: the dataclass decorator compiles the ones it generates from "<string>"
+            # and keeps a hand-written __eq__ (while still generating __hash__ from the raw fields)
+            def _hand_written(fn):
+                fname = getattr(getattr(fn, "__code__", None), "co_filename", None)
+                return fname is not None and not fname.startswith("<") and not fname.endswith("dataclasses.py")
+            own_special = sorted(k for k in ("__eq__", "__ne__", "__hash__", "__setattr__", "__delattr__", "__lt__", "__le__", "__gt__", "__ge__",
+                                             "__getattribute__", "__getattr__") if k in vars(c) and _hand_written(vars(c)[k]))
             schema.append({"name": name, "module": M.__name__, "bases": [b.__name__ for b in c.__mro__[1:] if b not in (object,) and b.__name__ != "ABC"],
                            "abstract": inspect.isabstract(c), "frozen": p.frozen, "eq": p.eq, "slots": "__slots__" in vars(c),
                            "unsafe_hash": p.unsafe_hash, "order": p.order,
                            "own_setattr": "__setattr__" in vars(c) and not p.frozen, "own_hash": False, "own_eq": False,
+                           "own_special": own_special, "hashable": getattr(c, "__hash__", None) is not None,
                            "fields": fields, "class_level_nodes": class_nodes})
 out["schema"] = schema
 print(json.dumps(out))
@@ -639,14 +647,17 @@ def emit_schema(st):
     L = [HEADER, "namespace Gen", "",
          "structure FieldInfo where", "  name : String", "  hasDefault : Bool", "  deriving Repr, DecidableEq", "",
          "structure ClassInfo where", "  name : String", "  bases : List String", "  abstract : Bool", "  frozen : Bool", "  eq : Bool", "  slots : Bool",
-         "  ownSetattr : Bool", "  fields : List FieldInfo", "  classLevelNodes : List String", "  deriving Repr, DecidableEq", "",
+         "  ownSetattr : Bool", "  fields : List FieldInfo", "  classLevelNodes : List String",
+         "  /-- special methods (__eq__, __hash__, __setattr__, ordering …) written by hand in the class body instead of generated by the dataclass decorator -/",
+         "  ownSpecial : List String", "  /-- `cls.__hash__ is not None` -/", "  hashable : Bool", "  deriving Repr, DecidableEq", "",
          "/-- every dataclass of core/node.py and plugins/mybaitis.py, by reflection -/", "def schema : List ClassInfo := ["]
     rows = []
     for c in st["schema"]:
-        rows.append("  ⟨%s, %s, %s, %s, %s, %s, %s, [%s], %s⟩" % (
+        rows.append("  ⟨%s, %s, %s, %s, %s, %s, %s, [%s], %s, %s, %s⟩" % (
             lean_str(c["name"]), lean_strs(c["bases"]), str(c["abstract"]).lower(), str(c["frozen"]).lower(), str(c["eq"]).lower(),
             str(c["slots"]).lower(), str(c["own_setattr"]).lower(),
-            ", ".join("⟨%s, %s⟩" % (lean_str(f["name"]), str(f["has_default"]).lower()) for f in c["fields"]), lean_strs(c["class_level_nodes"])))
+            ", ".join("⟨%s, %s⟩" % (lean_str(f["name"]), str(f["has_default"]).lower()) for f in c["fields"]), lean_strs(c["class_level_nodes"]),
+            lean_strs(c.get("own_special", [])), str(c.get("hashable", True)).lower()))
     L.append(",\n".join(rows) + "]")
     L += ["", "def fieldsOf (cls : String) : Option (List String) := (schema.find? (fun c => c.name == cls)).map fun c => c.fields.map (·.name)",
           "", "end Gen", ""]
